@@ -216,6 +216,29 @@ package reftable
 //@   ensures[layout-prefix] fits && extra < 8 ==> (forall j int :: 0 <= j && j < vval(buf) ==> prevKey[j] == key[j])
 //@   ensures[layout-suffix] fits && extra < 8 ==> (forall t int :: vval(buf) <= t && t < len(key) ==> key[t] == buf[vlen(buf) + vlen(buf[vlen(buf):]) + t - vval(buf)])
 
+// C14/C01: the 3 value-type bits stored with a key, as the format defines them for each record type: ref 0 deletion,
+// 1 value, 2 value and peeled value, 3 symbolic ref; log 0 deletion, 1 entry; index 0; obj the number of positions if
+// it is 1..7 and otherwise 0 (then a varint count follows). All below 8, as encodeKey's layout needs.
+//@ func (*RefRecord).valType
+//@   props C14 C01
+//@   requires r != nil
+//@   pure
+//@   ensures[by-the-format] result == (len(r.Value) > 0 ? (len(r.TargetValue) > 0 ? 2 : 1) : (len(r.Target) > 0 ? 3 : 0))
+//@ func (*LogRecord).valType
+//@   props C14 C01
+//@   requires l != nil
+//@   pure
+//@   ensures[by-the-format] result == (logIsDel(l) ? 0 : 1)
+//@ func (*indexRecord).valType
+//@   props C14 C01
+//@   pure
+//@   ensures[by-the-format] result == 0
+//@ func (*objRecord).valType
+//@   props C14 C01
+//@   requires r != nil
+//@   pure
+//@   ensures[by-the-format] result == (0 < len(r.Offsets) && len(r.Offsets) < 8 ? len(r.Offsets) : 0)
+
 // the value encoders of the four record types stay inside the buffer they are given (dynamic calls of record.encode are
 // resolved over these four contracts)
 //@ func encodeString
@@ -1503,11 +1526,11 @@ package reftable
 //@   modifies w.ALLFIELDS, anyof(*blockWriter), anyof([]byte), anyof([]indexRecord), anyof([]uint32), pv
 //@   ensures[inv] result == nil ==> wOK(w)
 //@   ensures[flushed] result == nil && old(w.blockWriter) != nil && old(w.blockWriter.entries) > 0 ==> w.blockWriter == nil
-//@   ensures[empty-block-kept] old(w.blockWriter) != nil && old(w.blockWriter.entries) == 0 ==> result == nil && w.blockWriter == old(w.blockWriter) && w.blockWriter.entries == 0 && w.index == old(w.index)
+//@   ensures[empty-block-kept] old(w.blockWriter) != nil && old(w.blockWriter.entries) == 0 ==> result == nil && w.blockWriter == old(w.blockWriter) && w.blockWriter.entries == 0 && w.index == old(w.index) && w.next == old(w.next) && (forall k int :: 0 <= k && k < len(w.index) ==> w.index[k] == old(w.index[k]))
 //@   ensures[one-index-entry-per-flushed-block] result == nil && old(w.blockWriter) != nil && old(w.blockWriter.entries) > 0 ==> len(w.index) == old(len(w.index)) + 1
 //@   ensures[index-entry-names-last-key-and-position] result == nil && old(w.blockWriter) != nil && old(w.blockWriter.entries) > 0 ==> w.index[len(w.index)-1].LastKey == old(w.blockWriter.lastKey) && w.index[len(w.index)-1].Offset == old(w.next)
 //@   ensures[earlier-index-entries-kept] result == nil && old(w.blockWriter) != nil && old(w.blockWriter.entries) > 0 ==> (forall k int :: 0 <= k && k < old(len(w.index)) ==> w.index[k] == old(w.index[k]))
-//@   ensures[nothing-to-flush] old(w.blockWriter) == nil ==> result == nil && w.index == old(w.index) && w.blockWriter == nil
+//@   ensures[nothing-to-flush] old(w.blockWriter) == nil ==> result == nil && w.index == old(w.index) && w.blockWriter == nil && w.next == old(w.next) && (forall k int :: 0 <= k && k < len(w.index) ==> w.index[k] == old(w.index[k]))
 //@   ensures[config-kept] cfgKept(w) && w.block == old(w.block) && w.lastKey == old(w.lastKey) && w.minUpdateIndex == old(w.minUpdateIndex) && w.maxUpdateIndex == old(w.maxUpdateIndex)
 
 // C14 (keys strictly ascending within and across blocks): add refuses - by panicking, here a precondition - a key that is
@@ -1565,6 +1588,7 @@ package reftable
 // flushes the last block of the section, then writes index levels until at most `threshold` blocks remain at the top.
 // No block that holds entries is ever replaced without having been flushed (requires of newBlockWriter), and when the
 // section is finished the list of pending index entries is empty.
+//@ spec maxLevel_gt0(m int) bool = m != 0
 //@ func (*Writer).finishSection
 //@   props C14 C02
 //@   requires wOK(w) && w.blockWriter != nil
@@ -1573,6 +1597,9 @@ package reftable
 //@   ensures[index-entries-do-not-leak] result == nil ==> len(w.index) == 0
 //@   ensures[nothing-left-unflushed] result == nil ==> w.blockWriter == nil || w.blockWriter.entries == 0
 //@   ensures[config-kept] cfgKept(w) && w.block == old(w.block)
+//@   loop 1 invariant[top-level-start] maxLevel_gt0(maxLevel) && len(w.index) > 0 ==> w.index[0].Offset == indexStart
+//@   loop 2 invariant[level-start-a] len(w.index) > 0 ==> w.index[0].Offset == indexStart
+//@   loop 2 invariant[level-start-b] len(w.index) == 0 ==> w.next == indexStart
 //@   loop 1 invariant[outer] wOK(w) && cfgKept(w) && w.block == old(w.block) && (w.blockWriter == nil || w.blockWriter.entries == 0)
 //@   loop 2 invariant[inner] -1 <= rangeindex && rangeindex < len(idx) && wOK(w) && cfgKept(w) && w.block == old(w.block) && w.blockWriter != nil
 
